@@ -11,10 +11,16 @@
 //!            after the other and, <delay>*100 us after the start, the mock kills every pool
 //!            connection of node 0 -- requests are being SUBMITTED at the instant the router ends
 //!            (markers: 1 + (round*n + task)*j + k; res lists all of them)
+//!          | split (no fault: from the j-th request on every reply is written in pieces, header and body
+//!            split across reads) | neg (frames on streams -1 and -7 precede the reply: ignored)
+//!          | flagop | flagcomp (a READY frame / a frame with the compression flag on the request's own
+//!            stream: that request fails, the connection lives)
+//!          | dup (the reply is sent twice: the second copy is a frame nobody waits for)
+//!          | short (the reply's length field announces <off%8+1> bytes less than follow: misframing)
 //!   cancel: the last <cancel> client futures are dropped 3 ms after the start (orphaned stream ids)
 //! observation (after '|'):
 //!   res=<r1>,..,<rn>   r = ok:<marker>:<padlen>:<padok> | err:<class> | hang | cancelled
-//!   fu=ok|err  tmax=<ms>  bound=<ms>  px=<body prefix length>
+//!   fu=ok|err|hang  ph=<probe requests of burst rounds that hung>  tmax=<ms>  bound=<ms>  px=<body prefix length>
 //!   conns=<conn>;<conn>..   conn = <node>.<connid>:<ev>,<ev>..
 //!     ev = i<stream>.<rid> request frame (rid = marker, or -k for handshake frames)
 //!          k<stream>.<rid> keepalive OPTIONS
@@ -85,7 +91,15 @@ impl Case {
 }
 
 fn pad_len(c: &Case, marker: i64) -> usize {
+    if c.pad >= 100 {
+        // the same padding for every request: every response frame has the same, known length
+        return c.pad - 100;
+    }
     (c.pad + 7 * (marker as usize)) % 61
+}
+fn echo_frame(c: &Case, marker: i64, stream: i16) -> Frame {
+    let Action::Rows(r) = echo(c, marker) else { unreachable!() };
+    Frame::response(stream, op::RESULT, types::body_result_rows(&r, false))
 }
 fn cell_for(c: &Case, marker: i64) -> Vec<u8> {
     let mut v = marker.to_be_bytes().to_vec();
@@ -160,9 +174,12 @@ async fn one_request(session: &Session, c: &Case, prepared: Option<&PreparedStat
                     let ok = b == cell_for(c, m);
                     format!("ok:{}:{}:{}", m, b.len() - 8, ok as u8)
                 }
-                _ => "ok:-1:0:0".into(),
+                // a value WAS handed to the caller, and it is not one of ours
+                Ok(_) => "ok:-1:0:0".into(),
+                // the driver refused to deserialize the row: an error, no bytes handed over
+                Err(_) => "err:rows.Deserialization".into(),
             },
-            Err(_) => "ok:-2:0:0".into(),
+            Err(_) => "err:rows.NotRows".into(),
         },
         Err(e) => format!("err:{}", err_class(&e)),
     }
@@ -170,7 +187,8 @@ async fn one_request(session: &Session, c: &Case, prepared: Option<&PreparedStat
 
 /// Rounds of concurrent submitters with a connection kill in the middle (fault burstrst/burstfin).
 /// Returns the outcome of every request (marker order) and the largest single-request latency.
-async fn burst_rounds(cluster: &MockCluster, session: &Arc<Session>, c: &Case, prepared: Option<&PreparedStatement>) -> (Vec<String>, u64) {
+async fn burst_rounds(cluster: &MockCluster, session: &Arc<Session>, c: &Case, prepared: Option<&PreparedStatement>) -> (Vec<String>, u64, u64) {
+    let mut probe_hangs = 0u64;
     let (tasks, per_task, rounds) = (c.n, c.j.max(1), c.off.max(1));
     let total = rounds * tasks * per_task;
     // a request that was never started (its task hung or was not reached) counts as cancelled
@@ -181,7 +199,12 @@ async fn burst_rounds(cluster: &MockCluster, session: &Arc<Session>, c: &Case, p
         let tw = Instant::now();
         while tw.elapsed() < Duration::from_millis(BOUND_MS) {
             let up = cluster.connections(Some(0)).iter().any(|x| x.registered.is_empty() && x.requests > 0 || x.registered.is_empty());
-            let probe = tokio::time::timeout(Duration::from_secs(5), one_request(session, c, prepared, FOLLOWUP)).await;
+            // a probe that does not complete is a hang like any other (no silent retry)
+            let probe = tokio::time::timeout(Duration::from_millis(BOUND_MS), one_request(session, c, prepared, FOLLOWUP)).await;
+            if probe.is_err() {
+                probe_hangs += 1;
+                break;
+            }
             if up && matches!(&probe, Ok(r) if r.starts_with("ok:")) {
                 break;
             }
@@ -223,7 +246,7 @@ async fn burst_rounds(cluster: &MockCluster, session: &Arc<Session>, c: &Case, p
         }
     }
     let r = results.lock().unwrap();
-    (r.iter().map(|x| x.0.clone()).collect(), r.iter().map(|x| x.1).max().unwrap_or(0))
+    (r.iter().map(|x| x.0.clone()).collect(), r.iter().map(|x| x.1).max().unwrap_or(0), probe_hangs)
 }
 
 async fn run_case(c: Case) -> String {
@@ -303,6 +326,30 @@ async fn run_case(c: Case) -> String {
             if c.fault == "slow" {
                 return Some(vec![Action::Delay(80), echo(&c, marker)]);
             }
+            // kinds that leave the connection alive
+            match c.fault.as_str() {
+                "split" => {
+                    let len = echo_frame(&c, marker, ctx.stream).encode().len();
+                    let offs = vec![1 + c.off % 8, 9, 9 + 1 + c.off % (len - 10), len - 1];
+                    return Some(vec![Action::Delay(c.delay), Action::Chunked(offs, 1 + (c.off % 3) as u64), echo(&c, marker)]);
+                }
+                "neg" => {
+                    let mut b = Frame::response(-1, op::EVENT, vec![0, 1, 2]).encode();
+                    b.extend(Frame::response(-7, op::RESULT, vec![9; 5]).encode());
+                    b.extend(echo_frame(&c, marker, ctx.stream).encode());
+                    return Some(vec![Action::Delay(c.delay), Action::Garbage(b)]);
+                }
+                "flagop" if k == c.j => {
+                    return Some(vec![Action::Delay(c.delay), Action::Garbage(Frame::response(ctx.stream, op::READY, vec![]).encode())]);
+                }
+                "flagcomp" if k == c.j => {
+                    let mut f = echo_frame(&c, marker, ctx.stream);
+                    f.flags = 0x01;
+                    return Some(vec![Action::Delay(c.delay), Action::Garbage(f.encode())]);
+                }
+                "flagop" | "flagcomp" => return Some(vec![echo(&c, marker)]),
+                _ => {}
+            }
             st.fault_conn = Some(ctx.conn_id);
             let mut a = vec![Action::Delay(c.delay)];
             match c.fault.as_str() {
@@ -310,6 +357,17 @@ async fn run_case(c: Case) -> String {
                 "rst" => a.extend([Action::CutAt(c.off, CutKind::Rst), echo(&c, marker)]),
                 "unsol" => a.extend([Action::UnsolicitedStream(30000 + (c.off % 2000) as i16), echo(&c, marker)]),
                 "stall" => a.push(Action::Stall),
+                "dup" => {
+                    let mut b = echo_frame(&c, marker, ctx.stream).encode();
+                    b.extend(b.clone());
+                    a.push(Action::Garbage(b));
+                }
+                "short" => {
+                    let mut b = echo_frame(&c, marker, ctx.stream).encode();
+                    let l = u32::from_be_bytes([b[5], b[6], b[7], b[8]]) - (1 + (c.off % 8) as u32);
+                    b[5..9].copy_from_slice(&l.to_be_bytes());
+                    a.push(Action::Garbage(b));
+                }
                 f if f.starts_with("ver") => a.extend([Action::FrameVersion(u8::from_str_radix(&f[3..], 16).unwrap_or(0x85)), echo(&c, marker)]),
                 f if f.starts_with("garb") => a.push(Action::Garbage(hexdec(&f[4..]))),
                 _ => a.push(echo(&c, marker)),
@@ -323,10 +381,12 @@ async fn run_case(c: Case) -> String {
     let t0_ns = cluster.now_ns();
     let mut res = Vec::new();
     let mut tmax = 0u64;
+    let mut probe_hangs = 0u64;
     if c.fault.starts_with("burst") {
-        let (r, t) = burst_rounds(&cluster, &session, &c, prepared.as_ref()).await;
+        let (r, t, ph) = burst_rounds(&cluster, &session, &c, prepared.as_ref()).await;
         res = r;
         tmax = t;
+        probe_hangs = ph;
     }
     let mut handles = Vec::new();
     for i in 0..(if c.fault.starts_with("burst") { 0 } else { c.n }) {
@@ -375,10 +435,15 @@ async fn run_case(c: Case) -> String {
     let tf = Instant::now();
     let mut fu = "err".to_string();
     while tf.elapsed() < Duration::from_millis(BOUND_MS) {
-        let r = tokio::time::timeout(Duration::from_secs(5), one_request(&session, &c, prepared.as_ref(), FOLLOWUP)).await;
-        if let Ok(r) = r {
-            if r.starts_with(&format!("ok:{}:", FOLLOWUP)) {
+        // a follow-up request that does not complete is a hang like any other (no silent retry)
+        match tokio::time::timeout(Duration::from_millis(BOUND_MS), one_request(&session, &c, prepared.as_ref(), FOLLOWUP)).await {
+            Ok(r) if r.starts_with(&format!("ok:{}:", FOLLOWUP)) => {
                 fu = "ok".into();
+                break;
+            }
+            Ok(_) => {}
+            Err(_) => {
+                fu = "hang".into();
                 break;
             }
         }
@@ -461,9 +526,10 @@ async fn run_case(c: Case) -> String {
     }
     let conns_s: Vec<String> = conns.iter().map(|c| format!("{}.{}:{}", c.0, c.1, if c.2.is_empty() { "-".to_string() } else { c.2.join(",") })).collect();
     format!(
-        "res={} fu={} tmax={} bound={} px={} conns={}",
+        "res={} fu={} ph={} tmax={} bound={} px={} conns={}",
         res.join(","),
         fu,
+        probe_hangs,
         tmax,
         BOUND_MS,
         px,
@@ -491,21 +557,22 @@ fn gen_cases(seed: u64, n: u64, thorough: bool) -> Vec<Case> {
     };
     // (a) every cut offset of a small script: header bytes 0..8, every body offset, between frames
     // frame of marker 2 with pad 3: body = 28 + 4 + 8 + (3+14)%61
-    let frame_len = 9 + 28 + 4 + 8 + (3 + 14) % 61;
-    let step = if thorough { 1 } else { 1 };
+    // every response frame of these cases has the same length (pad >= 100 = constant padding of 17),
+    // whichever request happens to arrive second
+    let frame_len = 9 + 28 + 4 + 8 + 17;
+    let _ = thorough;
     for kind in ["fin", "rst"] {
-        let mut off = 0;
-        while off <= frame_len + 1 {
+        for off in 0..=frame_len + 1 {
             let mut c = base(&mut r);
             c.fault = kind.into();
             c.off = off;
+            c.pad = 117;
             c.prep = off % 2 == 1;
             v.push(c);
-            off += step;
         }
     }
     // (b) every fault kind on the small script, both request kinds
-    for fault in ["none", "slow", "ccfin", "ccrst", "unsol", "stall", "ver85", "ver04", "ver83", "ver05", "garb00000000000000000000", "garb8400000177000000", "garb84", "garb840000010800ffffff0001", "garbffffffffffffffffffffffff"] {
+    for fault in ["none", "slow", "ccfin", "ccrst", "split", "neg", "flagop", "flagcomp", "dup", "short", "unsol", "stall", "ver85", "ver04", "ver83", "ver05", "garb00000000000000000000", "garb8400000177000000", "garb84", "garb840000010800ffffff0001", "garbffffffffffffffffffffffff"] {
         for prep in [false, true] {
             let mut c = base(&mut r);
             c.fault = fault.into();
@@ -553,7 +620,11 @@ fn gen_cases(seed: u64, n: u64, thorough: bool) -> Vec<Case> {
             _ => r.below(maxoff as u64) as usize,
         };
         c.cancel = if r.chance(1, 5) { r.range(1, c.n as u64) as usize } else { 0 };
-        c.fault = match r.below(18) {
+        c.fault = match r.below(22) {
+            18 => "split".into(),
+            19 => (*r.pick(&["neg", "flagop", "flagcomp"])).into(),
+            20 => "dup".into(),
+            21 => "short".into(),
             16 => "slow".into(),
             17 => (*r.pick(&["ccfin", "ccrst"])).into(),
             0..=3 => "fin".into(),
